@@ -209,8 +209,8 @@ class C19(P.Property):
                     if f is not None:
                         o = outcome(f)
                         obs.append((op, "closed", o[0]))
-                        if o != ("exc", "ValueError"):
-                            viol.append(V("C19.closed", "MODEL_MISMATCH", f"step {si}: {op} on a closed array gave {o!r:.80}, expected ValueError", step=si))
+                        if o[0] != "exc":  # the property says "raise", not which exception
+                            viol.append(V("C19.closed", "MODEL_MISMATCH", f"step {si}: {op} on a closed array gave {o!r:.80}, expected an exception", step=si))
                             break
                     continue
                 if op == "get":
